@@ -8,12 +8,23 @@ _COMPONENTS = [
     "gun/http", "gun/http2", "gun/connect", "gun/http/scenario", "gun/http2/scenario", "gun/grpc", "gun/grpc/scenario",
 ]
 
+_SCN_FIELDS = [
+    "calls/call", "calls/metadata/*", "calls/name", "calls/payload", "calls/postprocessors/payload/[]", "calls/postprocessors/status_code",
+    "calls/preprocessors/mapping/*", "calls/tag", "locals/*", "requests/body", "requests/headers/*", "requests/method", "requests/name",
+    "requests/postprocessors/body/[]", "requests/postprocessors/headers/*", "requests/postprocessors/mapping/*",
+    "requests/postprocessors/size/op", "requests/postprocessors/size/val", "requests/postprocessors/status_code",
+    "requests/preprocessor/mapping/*", "requests/tag", "requests/uri", "scenarios/min_waiting_time", "scenarios/name",
+    "scenarios/requests/[]", "scenarios/weight", "variable_sources/delimiter", "variable_sources/fields/[]", "variable_sources/file",
+    "variable_sources/ignore_first_line", "variable_sources/name", "variable_sources/variables/*",
+]
+
 SPEC = {
     "pkg": "c17",
     "tests": [
         {"name": "TestValid", "quick": 1600, "thorough": 64000, "shards_quick": 4, "shards_thorough": 16, "timeout": 1800},
         {"name": "TestMutations", "quick": 4800, "thorough": 192000, "shards_quick": 6, "shards_thorough": 16, "timeout": 1800},
         {"name": "TestPlaceholders", "quick": 2400, "thorough": 96000, "shards_quick": 4, "shards_thorough": 16, "timeout": 1800},
+        {"name": "TestScenarioPlaceholders", "quick": 1600, "thorough": 64000, "shards_quick": 4, "shards_thorough": 16, "timeout": 1800},
         {"name": "TestDiscardOverflowDefault", "quick": 400, "thorough": 16000, "shards_quick": 2, "shards_thorough": 16, "timeout": 1800},
     ],
     "rule": ("confgen reflects over the Go config struct of every component registered by core/import, phttp/import and grpc/import "
@@ -38,13 +49,22 @@ SPEC = {
              "and 1 of 3 others a decoy is defined next to the named variable / key: a name differing only in letter case (all "
              "upper, all lower, one letter flipped; environment names are case-sensitive on linux, property keys everywhere) or by "
              "one appended / removed character; it holds the text the field accepts when the case must be rejected (a fallback "
-             "lookup would be accepted silently) and a foreign text when the named variable is defined (the exact name must win). TestDiscardOverflowDefault: generated YAML / JSON files with 1-3 pools, each "
+             "lookup would be accepted silently) and a foreign text when the named variable is defined (the exact name must win). TestScenarioPlaceholders: a generated scenario description (0-3 variable sources of the types file/csv, file/json, "
+             "variables; 1-2 http requests with headers, body, preprocessor mapping, var/header / var/jsonpath / var/xpath / "
+             "assert/response postprocessors, templater and / or 1-2 grpc calls with metadata, prepare preprocessor, assert/response "
+             "postprocessor; 1-2 scenarios; locals) is written as a YAML file on the mem fs and read with the providers' reader "
+             "(scenario/config.ReadAmmoConfig); one scalar (kind drawn first: string, int, bool, the *string body, the interface{} "
+             "values of variables / locals; never a `type` key) is replaced by a placeholder in the same modes as above (whole, "
+             "embedded, unset / missing with and without decoy, invalid text for int / bool incl. weight -1 and assert size -1) and "
+             "the decoded AmmoConfig (reflective dump, pointers and interfaces followed) must equal the literal's, resp. the file "
+             "must be rejected with an error. TestDiscardOverflowDefault: generated YAML / JSON files with 1-3 pools, each "
              "with discard_overflow true / false / absent, read by the real CLI reader (cli.ReadConfigForVerif -> readConfig: viper "
              "from the OS file system, defaulting, decode): DiscardOverflow = true when absent, the given value otherwise. Each test "
              "first runs the fixed witness cases of the findings it made (plain regression cases once a finding is fixed). Depth: root "
              "and pool keys 0, component keys and log / monitoring keys 1, nested struct / nested plugin / composite element keys >= 2. "
              "Non-trivial = mutation (or, for TestValid, a given key) at depth >= 2, a placeholder in a non-string field, a pool "
-             "without the discard_overflow key; distinct = hash of the case."),
+             "without the discard_overflow key, a scenario-file placeholder in a non-string position (int, bool, *string, "
+             "interface{}); distinct = hash of the case."),
     "floors": {
         "TestValid/given_depth_ge_2": 0.4, "TestValid/pools_gt_1": 0.1, "TestValid/list_composite": 0.2, "TestValid/null_valued_key": 0.1,
         "TestMutations/kind:unknown_key": 0.25, "TestMutations/kind:wrong_type": 0.15, "TestMutations/kind:constraint": 0.05,
@@ -63,13 +83,22 @@ SPEC = {
         "TestPlaceholders/defined_with_decoy:case_variant:env": 0.02, "TestPlaceholders/defined_with_decoy:case_variant:property": 0.02, "TestPlaceholders/mode:embedded": 0.03, "TestPlaceholders/mode:invalid_text": 0.03,
         "TestPlaceholders/class:int": 0.05, "TestPlaceholders/class:float": 0.03, "TestPlaceholders/class:bool": 0.05,
         "TestPlaceholders/class:duration": 0.05, "TestPlaceholders/class:string": 0.1, "TestPlaceholders/depth:2": 0.1,
+        "TestScenarioPlaceholders/kind:string": 0.2, "TestScenarioPlaceholders/kind:int": 0.1, "TestScenarioPlaceholders/kind:bool": 0.02,
+        "TestScenarioPlaceholders/kind:*string": 0.08, "TestScenarioPlaceholders/kind:any": 0.03,
+        "TestScenarioPlaceholders/mode:whole": 0.25, "TestScenarioPlaceholders/mode:embedded": 0.1,
+        "TestScenarioPlaceholders/mode:invalid_text": 0.02, "TestScenarioPlaceholders/missing:unset_env": 0.04,
+        "TestScenarioPlaceholders/missing:missing_key": 0.04, "TestScenarioPlaceholders/missing:missing_file": 0.02,
+        "TestScenarioPlaceholders/missing_with_decoy:case_variant:env": 0.01, "TestScenarioPlaceholders/section:requests": 0.2,
+        "TestScenarioPlaceholders/section:calls": 0.1, "TestScenarioPlaceholders/section:scenarios": 0.1,
+        "TestScenarioPlaceholders/section:variable_sources": 0.1,
         "TestDiscardOverflowDefault/some_pool_without_key": 0.3, "TestDiscardOverflowDefault/discard_overflow:given_true": 0.1,
         "TestDiscardOverflowDefault/discard_overflow:given_false": 0.1, "TestDiscardOverflowDefault/format:yaml": 0.4,
         "TestDiscardOverflowDefault/format:json": 0.15,
     },
     "required_classes": (["TestValid/comp:" + c for c in _COMPONENTS] + ["TestMutations/comp:" + c for c in _COMPONENTS]
                          + ["TestMutations/comp:pool/pool", "TestMutations/comp:cli/root", "TestPlaceholders/comp:pool/pool",
-                            "TestPlaceholders/comp:cli/root"]),
+                            "TestPlaceholders/comp:cli/root"]
+                         + ["TestScenarioPlaceholders/field:" + f for f in _SCN_FIELDS]),
     "manifest": {
         "technique": ("property-based testing (rapid) with a reflection-driven config generator / mutator; reference-overlay oracle for "
                       "decoded configs, rejection oracle for mutations, metamorphic literal-vs-placeholder oracle, real CLI reader on "
@@ -81,14 +110,17 @@ SPEC = {
                  "validate-tag violation, missing required key, bad type name) must be rejected with an error. Literal and "
                  "${env}/${property} variants must decode identically; unresolved placeholders (also when a variable / key of a "
                  "name differing only in letter case or by one character is defined) and placeholders resolving to text that "
-                 "is no value of the field must be rejected. The CLI reader must decode discard_overflow as true exactly when the key is "
+                 "is no value of the field must be rejected. The same literal-vs-placeholder comparison is made for every scalar "
+                 "of generated scenario description files read by the scenario providers' reader. The CLI reader must decode discard_overflow as true exactly when the key is "
                  "absent from a pool of the file."),
         "note": ("Float-for-int (truncated by mapstructure by design), numbers or digit-only text for durations / sizes / levels (taken "
                  "as ns / bytes / level number), a string for a sink or source section (short form), placeholders in `type` keys, "
                  "unknown placeholder kinds (${foo:bar} is left verbatim), `pools: []`, a composite without `nested`, and the "
                  "never-enforced `valid:` tag of answlog.filter are outside the property's promises and not asserted. Exported default "
                  "functions are the reference for defaults (only the http guns' documented defaults are transcribed from the docs). "
-                 "Scenario providers (http/scenario, grpc/scenario ammo) are not in the table. The effect of discard_overflow on a "
+                 "Scenario providers (http/scenario, grpc/scenario ammo) are not in the component table; their description files "
+                 "are covered for placeholders only (YAML form; HCL is C16's subject), and values nested deeper inside the free-form "
+                 "`variables` / `locals` maps are copied verbatim by the decoder (no hook sees them) and are not asserted. The effect of discard_overflow on a "
                  "running pool is C04's subject; the subprocess cross-check sketched in DESIGN.md was not built."),
     },
     "assumptions": [
